@@ -33,11 +33,12 @@ func init() {
 		Rule: "forced part (all 432 cells in both tiers): a message is parked at one of 6 points of its path {inside the subscriber decorator, received but not dispatched, dispatched but not started, inside the handler (gate), before publishing, before settlement} " +
 			"x {1,2,8} concurrent Close callers x subscriber {scripted, scripted that emits one more message from its Close(), scripted that ignores the context, scripted whose Close() waits until every delivered message is settled (like a broker client draining in-flight messages), GoChannel buffer 0, GoChannel buffer 4} x CloseTimeout {1 h, 30 ms with the handler held longer} " +
 			"x {handleClose goroutine parked until Close signalled and Run cancelled the context, not parked}; Close is called while the message is parked, then the park is released, the handler is held at a gate until every Close call returned or the process is quiescent, then the gate opens. " +
-			"life-cycle part (60 cells per round, 1 round quick / 4 rounds thorough with other handler counts and park positions): Close arrives at a corner of the router's life cycle instead of inside a message's path: " +
+			"life-cycle part (72 cells per round, 1 round quick / 4 rounds thorough with other handler counts and park positions): Close arrives at a corner of the router's life cycle instead of inside a message's path: " +
 			"{while Run's start-up is inside the Subscribe call of the k-th of 2..4 handlers (at least one more handler still to be started; in later rounds sometimes the last one), while it is parked right after the k-th handler was marked started, while an explicit RunHandlers call starts handlers added to a running router (parked the same two ways), " +
 			"after a Run that failed half-way because one handler's Subscribe returned an error when other handlers were already started, before Run (Run is called afterwards)} x {1,2,8} concurrent Close callers x {scripted subscribers, one shared GoChannel} x a scenario variant: " +
 			"start-up scenarios {an already started handler is inside an invocation (held at a gate) when Close arrives, idle}; failed Run {message inside the handler, message dispatched but parked before the handler function}; " +
-			"Close before Run {Run parked in its start-up and the handleClose goroutines parked so that a message is forced into an already started handler, no parks: every subscriber emits one message right after Subscribe and the schedule is only perturbed}. " +
+			"Close before Run {Run parked in its start-up and the handleClose goroutines parked so that a message is forced into an already started handler, no parks: every subscriber emits one message right after Subscribe and the schedule is only perturbed}, " +
+			"Run parked between RunHandlers returning and Running() closing (all handlers consuming, router 'not running' yet) {a handler held inside an invocation, idle}. " +
 			"CloseTimeout is 1 h in the start-up scenarios (Close has to succeed) and 30 ms after a failed Run / before Run (there the unchanged router reports a time-out, which the oracle accepts: it only forbids nil while an invocation is in progress or before a later start). " +
 			"After everything returned, one more Close call is made (repeated Close) and every handler's subscription gets one late message: it must not be handled if any Close call had returned nil. " +
 			"random part: routers of 1..3 handlers, 1..10 messages, handlers of random duration, Close (1..3 callers) or Run-context cancel at a random moment, scripted or GoChannel subscribers. " +
